@@ -231,8 +231,14 @@ class Schema:
 
     def add_schema(self, schema, root_path: DataPath):
         for rule in schema.rules:
-            rule.path = root_path / rule.path
-            self.rules.append(rule)
+            # add a new, re-rooted rule; the rules of the added schema are left as they are
+            new_rule = Rule(
+                path=root_path / rule.path,
+                condition=rule.condition,
+                cast=rule.cast,
+                doc=rule.doc,
+            )
+            self.rules.append(new_rule)
 
         self.rules = sorted(self.rules, key=lambda i: len(i.path))
 
